@@ -74,18 +74,18 @@ def gen_cases(tier, seed):
     rng = np.random.default_rng([seed, 7])
     q = tier == "quick"
     cases = []
-    sizes = [1, 2, 3, 5, 8, 16, 33] if q else [1, 2, 3, 4, 5, 7, 8, 12, 16, 25, 33, 50, 64]
+    sizes = [1, 2, 3, 5, 8, 16, 33] if q else [1, 2, 3, 4, 5, 7, 8, 12, 16, 25, 33, 50, 64, 100, 128]
     for n in sizes:
         for pat in PATTERNS:
             for cont in ("r", "u"):
-                for rep in range(1 if q else 3):
+                for rep in range(1 if q else 12):
                     cases.append({"type": "single", "n": n, "pattern": pat, "container": cont,
                                   "s": int(rng.integers(1 << 30)), "group": "single-%d-%s" % (n, cont)})
     for R in (1, 2, 3, 4):
         for npr in ([1, 2, 5] if q else [1, 2, 3, 5, 8, 16]):
             for cont in ("r", "u"):
                 for pat in (["random", "zeros", "dominant"] if q else PATTERNS):
-                    for rep in range(1 if q else 3):
+                    for rep in range(1 if q else 8):
                         cases.append({"type": "ranks", "R": R, "n": npr, "pattern": pat, "container": cont,
                                       "s": int(rng.integers(1 << 30)), "via": str(rng.choice(["sr", "prop"])),
                                       "group": "ranks-%d-%d-%s" % (R, npr, cont), "cost": 2})
